@@ -1,2 +1,199 @@
-From Coq Require Import ZArith NArith List.
-From Verif Require Import Base.Word Model.Fsm Model.Lcp Model.Ipcp Model.Ipv6cp Model.FsmSpec Model.FsmCheck.
+(* C11 — PPP control protocols open only on mutual agreement and always terminate.
+   Statements only; proofs are in Proofs/FsmProofs.v.  The Model is Model/Fsm.v (the RFC 1661
+   automaton as coded three times in pkg/pppoe) instantiated with the option processors
+   lcp_procs / ipcp_procs / v6_procs.  "forall X (P : procs X)" = for every option processor, hence
+   for all three copies and every configuration; [run P s evs] = fold_left over the event list.
+   Events: Up, Down, Open, Close, received bytes, timer expiry [EFire t] of ANY started and not yet
+   delivered timer t — including one the code has already stopped or replaced (stale fire). *)
+From Coq Require Import ZArith NArith List Bool.
+From Verif Require Import Base.Word Model.Fsm Model.Lcp Model.Ipcp Model.Ipv6cp Model.FsmSpec Model.FsmCheck
+                          Proofs.FsmProofs.
+Import ListNotations.
+Local Open Scope N_scope.
+
+(* ------------------------------------------------------------------------------------------- T1
+   Opened => we acknowledged the peer's most recent Configure-Request (g_we) and the peer
+   acknowledged our most recent one (g_peer): every event sequence, stale timer fires included.
+   FULL since fix 9b2a861/8c383e7 (before it: refuted by [Up; Open; RCA; stale EFire 1; RCR+], kept
+   as corpus/C11/k11a-*.json and as ex_stale_expiry_no_longer_opens below). *)
+Theorem C11_T1_opened_implies_mutual_ack : forall X (P : procs X) (x : X) (evs : list ev),
+  f_st (run P (init x) evs) = Opened ->
+  g_we (run P (init x) evs) = true /\ g_peer (run P (init x) evs) = true.
+Proof. exact @opened_implies_mutual_ack. Qed.
+Print Assumptions C11_T1_opened_implies_mutual_ack.
+
+(* what the two ghost fields mean in observables, for every state and event: g_peer can hold after a
+   step only if no Configure-Request was sent in that step and it held before or the step received a
+   Configure-Ack carrying the identifier of our latest request; g_we can hold after a step only if
+   the step answered a well-formed Configure-Request with a Configure-Ack of the same identifier, or
+   was no Configure-Request and it held before.  (The monitor recomputes both from packets alone.) *)
+Theorem C11_T1_g_peer_meaning : forall X (P : procs X) (s : fsm X) (e : ev),
+  g_peer (next P s e) = true ->
+  sends_cr (sent P s e) = false /\ (g_peer s = true \/ is_rca_match s e = true).
+Proof. exact @g_peer_meaning. Qed.
+Print Assumptions C11_T1_g_peer_meaning.
+Theorem C11_T1_g_we_meaning : forall X (P : procs X) (s : fsm X) (e : ev),
+  g_we (next P s e) = true ->
+  match rcr_id e with
+  | Some i => existsb (fun p => (pc p =? 2) && (pi p =? i)) (sent P s e) = true
+  | None => g_we s = true
+  end.
+Proof. exact @g_we_meaning. Qed.
+Print Assumptions C11_T1_g_we_meaning.
+
+Example C11_T1_opened_reachable :
+  f_st (run lcp_procs (init lx0) [EOpen; EUp; rcr_lcp; ERecv [2;1;0;4]]) = Opened.
+Proof. exact ex_opened_reachable. Qed.
+Example C11_T1_stale_expiry_no_longer_opens :
+  f_st (run lcp_procs (init lx0) [EUp; EOpen; ERecv [2;1;0;4]; EFire 1; rcr_lcp]) = AckSent.
+Proof. exact ex_stale_expiry_no_longer_opens. Qed.
+
+(* ------------------------------------------------------------------------------------------- T2
+   In Opened (any state record whatsoever with f_st = Opened) every renegotiation, terminate or
+   lower-layer-down event leaves Opened.  [leaving_of lcp last e] (Model/FsmSpec.v, shared with the
+   monitor): Down, Close; a well-formed Configure-Request; Configure-Ack with identifier [last];
+   well-formed Configure-Nak/Reject with identifier [last]; Terminate-Request; Terminate-Ack; and,
+   where the copy handles them (LCP), Code-Reject of codes 1..4 and Protocol-Reject of 0xC021. *)
+Theorem C11_T2_leaves_opened : forall X (P : procs X) (s : fsm X) (e : ev),
+  f_st s = Opened -> leaving_of (pr_lcp P) (f_last s) e = true -> f_st (next P s e) <> Opened.
+Proof. exact @leaves_opened. Qed.
+Print Assumptions C11_T2_leaves_opened.
+
+Example C11_T2_example :
+  let s := run lcp_procs (init lx0) [EOpen; EUp; rcr_lcp; ERecv [2;1;0;4]] in
+  leaving_of true (f_last s) (ERecv [5;9;0;4]) = true /\ f_st (next lcp_procs s (ERecv [5;9;0;4])) = Stopping.
+Proof. exact ex_leaving_event. Qed.
+
+(* ------------------------------------------------------------------------------------------- T3
+   Every reply echoes the request's identifier: in any state, for any event, each Configure-Ack/
+   Nak/Reject, Terminate-Ack and Echo-Reply handed to the send callback answers a received packet of
+   the matching kind and carries its identifier ([chk_ids] is clause 2 of the monitor). *)
+Theorem C11_T3_reply_echoes_id : forall X (P : procs X) (s : fsm X) (e : ev),
+  chk_ids e (sent P s e) = true.
+Proof. exact @reply_echoes_id. Qed.
+Print Assumptions C11_T3_reply_echoes_id.
+
+(* ------------------------------------------------------------------------------------------- T4
+   For every state, every received byte string that parses as a Configure-Request with options
+   [opts], every packet p sent in reply: an Ack carries exactly [opts]; a Reject carries a
+   subsequence of [opts] none of which the protocol's policy ([acceptable], Model/FsmSpec.v) accepts;
+   a Nak carries, in order, only option types of the request. *)
+Theorem C11_T4_lcp_reply_options : forall s d i data opts p,
+  parse_pkt d = Some (1, i, data) -> parse_opts data = Some opts -> In p (sent lcp_procs s (ERecv d)) ->
+  (pc p = 2 -> pd p = ser_opts opts) /\
+  (pc p = 4 -> exists l, pd p = ser_opts l /\ sublist l opts /\
+               forall o, In o l -> forall k a b, mk_kind k = 0 -> acceptable k a b o = false) /\
+  (pc p = 3 -> exists l, pd p = ser_opts l /\ sublist (map ot l) (map ot opts)).
+Proof. exact lcp_reply_options. Qed.
+Print Assumptions C11_T4_lcp_reply_options.
+
+Theorem C11_T4_ipv6cp_reply_options : forall s d i data opts p,
+  parse_pkt d = Some (1, i, data) -> parse_opts data = Some opts -> In p (sent v6_procs s (ERecv d)) ->
+  (pc p = 2 -> pd p = ser_opts opts) /\
+  (pc p = 4 -> exists l, pd p = ser_opts l /\ sublist l opts /\
+               forall o, In o l -> forall k a b, mk_kind k = 2 -> acceptable k a b o = false) /\
+  (pc p = 3 -> exists l, pd p = ser_opts l /\ sublist (map ot l) (map ot opts)).
+Proof. exact v6_reply_options. Qed.
+Print Assumptions C11_T4_ipv6cp_reply_options.
+
+(* T4 + T5 for IPCP; [ipcp_mcfg x k]: k is the policy (assigned address, DNS configured) of option
+   state x.  Ack: exactly the request's options, and (T5, guard: an address is assigned) every
+   IP-Address option in it is the assigned address.  Nak: each entry answers a not-acceptable option
+   of the request of the same type. *)
+Theorem C11_T4_T5_ipcp_reply_options_partial : forall s d i data opts p k,
+  ipcp_mcfg (f_x s) k ->
+  parse_pkt d = Some (1, i, data) -> parse_opts data = Some opts -> In p (sent ipcp_procs s (ERecv d)) ->
+  (pc p = 2 -> pd p = ser_opts opts /\
+               forall a o, ix_peer (f_x s) = Some a -> In o opts -> ot o = 3 -> od o = a) /\
+  (pc p = 4 -> exists l, pd p = ser_opts l /\ sublist l opts /\
+               forall o, In o l -> forall a b, acceptable k a b o = false) /\
+  (pc p = 3 -> exists l, pd p = ser_opts l /\ sublist (map ot l) (map ot opts) /\
+               forall o', In o' l -> exists o, In o opts /\ ot o = ot o' /\ forall a b, acceptable k a b o = false).
+Proof. exact ipcp_reply_options. Qed.
+Print Assumptions C11_T4_T5_ipcp_reply_options_partial.
+
+Example C11_T4_reject_example :
+  sent lcp_procs (run lcp_procs (init lx0) [EOpen; EUp]) (ERecv [1;9;0;12;1;4;5;220;3;4;192;35])
+  = [packet 4 9 [3;4;192;35]].
+Proof. exact ex_reject_lists_offending. Qed.
+Example C11_T5_ack_example :
+  sent ipcp_procs (run ipcp_procs (init ix0) [EOpen; EUp]) (ERecv [1;3;0;10;3;6;10;0;0;9])
+  = [packet 2 3 [3;6;10;0;0;9]].
+Proof. exact ex_ipcp_ack_assigned. Qed.
+
+(* T5 without the guard is REFUTED: with no address assigned (config.PeerIP = nil) any non-zero
+   address is acknowledged — known finding K11c (marker 1103). *)
+Theorem C11_T5_ipcp_acks_only_assigned_refuted :
+  ~ (forall x evs d p opts o,
+       In p (sent ipcp_procs (run ipcp_procs (init x) evs) (ERecv d)) -> pc p = 2 ->
+       parse_opts (pd p) = Some opts -> In o opts -> ot o = 3 -> ix_peer x = Some (od o)).
+Proof. exact ipcp_acks_only_assigned_refuted. Qed.
+Print Assumptions C11_T5_ipcp_acks_only_assigned_refuted.
+
+(* ------------------------------------------------------------------------------------------- T6
+   Silent peer.  [silent P n s]: n rounds in which the only thing that happens is the regular expiry
+   of the running restart timer (if there is one).  After Open, Up: for every n beyond the count,
+   the state is Stopped and exactly max(configured count, 1) Configure-Requests were sent in total
+   ([pr_irc] = MaxConfigure for LCP; MaxRetransmit, 0 => 10, for the NCPs). *)
+Theorem C11_T6_silent_peer_after_open_up : forall X (P : procs X) (x : X) (n : nat),
+  (Z.to_nat (pr_irc P x - 1) < n)%nat ->
+  let s1 := run P (init x) [EOpen; EUp] in
+  f_st (silent P n s1) = Stopped /\
+  (count_req (sent P (init x) EOpen ++ sent P (next P (init x) EOpen) EUp ++ silent_sent P n s1)
+   = Z.to_nat (Z.max (pr_irc P x) 1))%nat.
+Proof. exact @silent_peer_after_open_up. Qed.
+Print Assumptions C11_T6_silent_peer_after_open_up.
+
+(* Close in a negotiating or opened state, then silence: Closed after exactly max(count, 1)
+   Terminate-Requests (the code initialises the counter from the same configured count). *)
+Theorem C11_T6_silent_peer_after_close : forall X (P : procs X) (s : fsm X) (n : nat),
+  (f_st s = ReqSent \/ f_st s = AckRcvd \/ f_st s = AckSent \/ f_st s = Opened) ->
+  (Z.to_nat (pr_irc P (f_x s) - 1) < n)%nat ->
+  let s1 := next P s EClose in
+  f_st (silent P n s1) = Closed /\
+  (count_req (sent P s EClose ++ silent_sent P n s1) = Z.to_nat (Z.max (pr_irc P (f_x s)) 1))%nat.
+Proof. exact @silent_peer_after_close. Qed.
+Print Assumptions C11_T6_silent_peer_after_close.
+
+Example C11_T6_example :
+  let s1 := run lcp_procs (init lx0) [EOpen; EUp] in
+  f_st (silent lcp_procs 3 s1) = Stopped /\ count_req (silent_sent lcp_procs 3 s1) = 2%nat.
+Proof. exact ex_silent_peer. Qed.
+
+(* ------------------------------------------------------------------------------------------- T6'
+   The same when the peer falls silent in ANY state is REFUTED for all three copies: a matching
+   Configure-Ack stops the restart timer and nothing re-arms it in Ack-Rcvd (known finding K11b,
+   marker 1102). *)
+Theorem C11_T6p_lcp_always_terminates_refuted :
+  ~ (forall x evs, exists n, terminal (f_st (silent lcp_procs n (run lcp_procs (init x) evs))) = true).
+Proof. exact lcp_not_always_terminates. Qed.
+Print Assumptions C11_T6p_lcp_always_terminates_refuted.
+Theorem C11_T6p_ipcp_always_terminates_refuted :
+  ~ (forall x evs, exists n, terminal (f_st (silent ipcp_procs n (run ipcp_procs (init x) evs))) = true).
+Proof. exact ipcp_not_always_terminates. Qed.
+Print Assumptions C11_T6p_ipcp_always_terminates_refuted.
+Theorem C11_T6p_ipv6cp_always_terminates_refuted :
+  ~ (forall x evs, exists n, terminal (f_st (silent v6_procs n (run v6_procs (init x) evs))) = true).
+Proof. exact v6_not_always_terminates. Qed.
+Print Assumptions C11_T6p_ipv6cp_always_terminates_refuted.
+
+(* T6' under the decidable guard [live s] (the state needs no timer, or its restart timer is set and
+   has not fired): silence from ANY such state ends, within restartCount+1 expiries, in a state
+   without timer, after at most restartCount further requests. *)
+Theorem C11_T6p_silent_peer_terminates_partial : forall X (P : procs X) (s : fsm X) (n : nat),
+  live s = true -> (Z.to_nat (f_rc s) < n)%nat ->
+  terminal (f_st (silent P n s)) = true /\ (count_req (silent_sent P n s) <= Z.to_nat (f_rc s))%nat.
+Proof. exact @silent_peer_terminates_live. Qed.
+Print Assumptions C11_T6p_silent_peer_terminates_partial.
+
+(* ... and the guard can only be lost at the sites of K11b: a step from a live state to a state
+   that is not live is the receipt of a Configure-Ack/Nak/Reject with the identifier of our latest
+   request, or of a Terminate-Request / Terminate-Ack.  Up, Down, Open, Close, Configure-Requests,
+   timer expiries (fresh or stale), Code-/Protocol-Rejects, Echo never lose it. *)
+Theorem C11_T6p_only_receive_handlers_stop_the_timer : forall X (P : procs X) (s : fsm X) (e : ev),
+  live s = true -> stops_timer_ev (f_last s) e = false -> live (next P s e) = true.
+Proof. exact @live_preserved. Qed.
+Print Assumptions C11_T6p_only_receive_handlers_stop_the_timer.
+
+Example C11_T6p_live_example : live (run v6_procs (init vx0) [EOpen; EUp; ERecv [3;1;0;4]]) = true.
+Proof. exact ex_live_state. Qed.
